@@ -4,11 +4,12 @@ import json, os, re
 ROOT = os.path.dirname(os.path.abspath(__file__))
 props = [json.loads(l) for l in open(os.path.join(ROOT, 'properties.jsonl'))]
 hooks = json.load(open(os.path.join(ROOT, 'hooks.json')))
+claimed = set(json.load(open(os.path.join(ROOT, 'claimed.json'))))  # integrated + reviewed by the lead
 checks, na, served = [], [], {"rapid": [], "go-fuzz": []}
 for p in props:
     pid = p['id']
     pj = os.path.join(ROOT, 'harness', 'c' + pid[1:], 'parts.json')
-    if not os.path.exists(pj):
+    if pid not in claimed or not os.path.exists(pj):
         na.append({"property_id": pid, "reason": "not claimed yet: the check described in DESIGN.md §3 %s has not been built; property-based testing applies, nothing is claimed until the check exists and was shown sensitive" % pid})
         continue
     spec = json.load(open(pj))
